@@ -300,6 +300,8 @@ def run(chk: Check):
     from .. import report
     report.design(chk)
     report.replay_scripted(chk)
+    # code -> spec: real runs (real sampler), rank 0's calls recorded and replayed by ReportTrace.tla
+    report.replay_recorded(chk)
 
 
 # ----------------------------------------------------------------------------- verdicts -> report
